@@ -180,6 +180,12 @@ class CurveDriver(hist.Driver):
                 if c not in idnt:
                     viol("stale-result", f"column {c} missing although a "
                          "hash is stored", witness="col-missing:" + c)
+                elif c not in o:
+                    if not np.all(np.isnan(np.asarray(idnt[c],
+                                                      dtype=float))):
+                        viol("stale-result", f"column '{c}' holds numbers, "
+                             "the same fit on a fresh copy leaves no such "
+                             "column", witness="col-only-here:" + c)
                 elif not np.array_equal(np.asarray(idnt[c]),
                                         np.asarray(o[c]), equal_nan=True):
                     viol("stale-result", f"column '{c}' differs from the "
@@ -390,6 +396,9 @@ class Failures(CurveDriver):
         F(),
         F(weight_cp=0),
         F(range_type="bogus"),
+        F(range_x=[-4e-9, 4e-9]),                  # too few points
+        F(range_x=[0, 0]),
+        F(range_type="relative cp", range_x=[-1e-9, 1e-9]),
         F(model_key="no_such_model"),
         F(params_initial={"__params__": "cone_A"}),
         F(nonsense_key=1),
